@@ -16,8 +16,11 @@ var table = map[string]func(*fw.Ctx){
 	"C01": checks.C01,
 	"C04": checks.C04,
 	"C05": checks.C05,
+	"C06": checks.C06,
 	"C07": checks.C07,
+	"C16": checks.C16,
 	"C17": checks.C17,
+	"C18": checks.C18,
 }
 
 func main() {
